@@ -1,7 +1,7 @@
 (* C08 - property theorems.  Model: V.C08.Model (string matchers, SmodelsInput::readSymbols, the trip through C02's converter
    model); statement-side definitions: V.C08.Spec (good_name, sitem/sym_of = the symbols the converter's flush writes,
    ok_item, node_of). *)
-Require Import V.Lib.Base V.Lib.Calls V.Lib.Dec V.Gen.Consts V.Gen.Consts_C02 V.Gen.Consts_C08 V.C02.Model V.C08.Model V.C08.Spec
+Require Import V.Lib.Base V.Lib.Calls V.Lib.Dec V.Gen.Consts V.Gen.Consts_C02 V.Gen.Consts_C08 V.C02.Model V.C02.Spec V.C08.Model V.C08.Spec
                V.C08.ProofsStr V.C08.ProofsSym V.C08.ProofsFlush.
 Local Open Scope Z_scope.
 
@@ -126,6 +126,24 @@ Theorem c08_externals :
   forallb (fun v => (0 <=? ext_code v) && (ext_code v <=? extr_max)) [0; 1; 2] = true.
 Proof. split; [exact ext_values_back | exact ext_code_involution]. Qed.
 Print Assumptions c08_externals.
+
+(* (4b) ... through the whole reader model: for EVERY sequence `out` of calls made on the writer (in particular what the converter
+   emits: its external values are `v mod 4`), if the reader accepts it, the external calls it delivers are exactly the external calls
+   of `out`, in order, with the same atoms (the reader does not renumber: the atom of the converted program = SmodelsConvert::get of the
+   input atom) and the same values, whatever the options and wherever the step boundaries are. *)
+Theorem c08_externals_trip : forall o out, Forall ext_val_ok out -> snd (read_back o out) = true ->
+  filter is_ext_call (fst (read_back o out)) = filter is_ext_call out.
+Proof. exact read_back_externals. Qed.
+Print Assumptions c08_externals_trip.
+
+Example c08_externals_trip_nonvacuous :
+  let p := [CInit false; CBegin; CExternal 1 0; CExternal 2 1; CExternal 3 2; CExternal 4 3; CHeuristic 1 0 1 1 []; CEnd] in
+  exists s w out, conv_write true cv0 sw0 p = Ok (s, w, out) /\ Forall ext_val_ok out /\ snd (read_back (mkO true true true) out) = true /\
+    filter is_ext_call (fst (read_back (mkO true true true) out)) = [CExternal 2 0; CExternal 3 1; CExternal 4 2; CExternal 5 3].
+Proof.
+  do 3 eexists. split; [vm_compute; reflexivity|]. split; [|split; vm_compute; reflexivity].
+  repeat (apply Forall_cons; [cbn [ext_val_ok]; try exact I; lia|]). apply Forall_nil.
+Qed.
 
 (* (5) Filter.  (a) Without filter nothing is lost: for ANY symbol table whatsoever (no hypothesis on the names) and any options the
    output calls delivered are exactly the symbols, in order, unchanged.  (b) For tables of the converter's shape the output calls are
